@@ -745,6 +745,9 @@ def job_scale(j):
             kind, n = "chain", rng.randint(520, 700)  # deeper than half of Python's default recursion limit
         if k == 1 and j.get("deep"):
             kind, n = "chain", rng.randint(1100, 1500)  # deeper than Python's default recursion limit
+        nested_chain = kind == "nested_chain"
+        if nested_chain:
+            kind, n = "chain", rng.randint(1100, 1300)  # ... most of it written as an INNER DAG called by the describing function
         fns = {"g%d" % q: dict(priority=rng.choice([0, 1, 2]), is_sequential=False, resource=rng.choice(["thread", "thread", "async-thread", "main-thread"]))
                for q in range(4)}
         if kind in ("chain_beside_sequential", "fan_below_sequential"):
@@ -781,6 +784,12 @@ def job_scale(j):
         sinks = set(range(n)) - {a[1] for nd in nodes for a in nd["args"] if a[0] == "n"}
         sp = {"name": "big", "params": ["x"], "defaults": {}, "fns": fns, "nodes": nodes,
               "ret": ["tuple", [["n", i, []] for i in sorted(sinks)[:50]]], "mc": rng.randint(2 if "gseq" in fns else 1, 8), "is_async": rng.random() < 0.3}
+        if nested_chain:
+            for fs in fns.values():
+                fs["resource"] = "thread"
+            sp["is_async"] = False
+            sp["nest"] = {"name": "nin", "first": 5, "last": n - 5, "mc": 1}
+            kind = "nested_chain"
         rp = {"kind": "rerun_job", "job": dict(j, n_cases=k + 1), "shape": kind, "nodes": n, "mc": sp["mc"], "is_async": sp["is_async"]}
         col.evaluations += 1
         try:
@@ -827,7 +836,7 @@ def job_scale(j):
 
             if not same(ref[1].result, res[1]):
                 col.violation(pid, "large_dag_returned_wrong_value", dict(shape=kind, nodes=n, got=short(res[1], 200)), rp)
-        if kind == "chain" and n >= 500:
+        if kind == "chain" and n >= 500 and not sp.get("nest"):
             # executor selections deep inside the chain: exactly the documented closure runs (no traversal gives up half way)
             mid = rng.randint(40, 200) if n > 1050 and rng.random() < 0.6 else rng.randint(40, n - 50)  # (often more than 1000 below it)
             for kw_, exp_ in (({"target_nodes": [ids[mid]]}, set(range(mid + 1))), ({"exclude_nodes": [ids[mid]]}, set(range(mid))),
